@@ -11,7 +11,8 @@ PROPS_FILE = "props/C14.v"
 RULE = ("cases = integrate('log u(x)', factor=f) for every factor kind (general, rank-one, linear, constant, measure, density) with "
         "factor batch 1 or R, measures and densities with R in 1..3, D in 1..4; integrate_log_conditional(q) for the five "
         "linear conditional classes with an arbitrary Gaussian q over (y,x) (not the model's own joint), R_q in 1..3; "
-        "integrate_log_conditional_y(p_x, y) given y and as a callable; non-trivial = more than one scalar dimension; "
+        "integrate_log_conditional_y(p_x, y) given y and as a callable that is held while the same conditional answers two further "
+        "requests for another p(x) (both modes for every shape); non-trivial = more than one scalar dimension; "
         "distinct = SHA1 of the input")
 EXPLANATION = ("model ExpLog.v (built on the quadratic-inner moment of Moments.v) at Qc in the log domain vs implementation "
                "(result divided by the total mass); oracle: closed form -1/2 (tr(A' Lambda A S) + (A m + a)' Lambda (A m + a)) - 1/2 "
@@ -46,7 +47,7 @@ def gen_descs(g, tier):
                 c = lin.gen_cond(g, cls, 1, Dy, Dx)
                 N = g.choice([1, Rq])
                 out.append(dict(scn="log_cond_y", c=c, p=lin.gen_pdfv(g, Rq, c["Dx"], ctor="Sigma"), ys=g.mat(N, c["Dy"]),
-                                callable=bool(g.randint(0, 1))))
+                                callable=bool((Dy + Dx + Rq) % 2)))
         # R_cond = R_q > 1 (general classes only)
         if cls in ("full", "diag"):
             c = lin.gen_cond(g, cls, 2, 2, 1)
@@ -56,7 +57,9 @@ def gen_descs(g, tier):
             f = c16.gen_case(g, kind, Dx, Dy, Dk, R=Rq)
             out.append(dict(scn="feat_log_cond", f=f, q=lin.gen_pdfv(g, Rq, Dy + Dx, ctor="Sigma")))
             f = c16.gen_case(g, kind, Dx, Dy, Dk, R=Rq)
-            out.append(dict(scn="feat_log_cond_y", f=f, ys=g.mat(g.choice([1, Rq]), Dy), callable=bool(g.randint(0, 1))))
+            out.append(dict(scn="feat_log_cond_y", f=f, ys=g.mat(g.choice([1, Rq]), Dy), callable=False))
+            f = c16.gen_case(g, kind, Dx, Dy, Dk, R=Rq)      # the returned function, held across further requests (_other_calls)
+            out.append(dict(scn="feat_log_cond_y", f=f, ys=g.mat(g.choice([1, Rq]), Dy), callable=True))
     for _ in range(0 if q else 600):
         cls = g.choice(lin.CLS)
         c = lin.gen_cond(g, cls, 1, g.randint(1, 3), g.randint(1, 3))
@@ -144,6 +147,7 @@ def run_impl(d):
     ys = jarr(d["ys"])
     if d["callable"]:
         fn = c.integrate_log_conditional_y(p, **ckw)
+        _other_calls(c, p, ys, ckw)          # the callable is held while the same conditional serves other requests
         val = np.asarray(fn(ys))
     else:
         val = np.asarray(c.integrate_log_conditional_y(p, y=ys, **ckw))
@@ -194,6 +198,15 @@ def coq_feat(d):
     return "let pp := %s in let pk := prepare (multiply true pp %s) in %s" % (p, kf_coq(f), " ++ ".join(per))
 
 
+def _other_calls(c, p, ys, ckw):
+    """further requests to the same conditional object between the creation of a callable and its use: another p(x), with
+    and without y (the returned function must keep the p(x) it was made for)"""
+    I = gtlib.impl()
+    p2 = I["pdf"].GaussianPDF(Sigma=2.0 * p.Sigma, mu=p.mu + 1.0)
+    c.integrate_log_conditional_y(p2, **ckw)
+    c.integrate_log_conditional_y(p2, y=ys + 0.5, **ckw)
+
+
 def run_feat(d, ob, fails):
     import numpy as np
     I = gtlib.impl(); jnp = I["jnp"]
@@ -226,7 +239,12 @@ def run_feat(d, ob, fails):
     Ek = np.exp(np.asarray(pk.log_integral())).reshape(R, Dk); Ekk = np.exp(np.asarray(pkk.log_integral())).reshape(R, Dk, Dk)
     SEAMS[c16.gtlib_fp(d)] = dict(Ek=c16.fr(Ek), Ekk=c16.fr(Ekk))
     ys = jarr(d["ys"])
-    val = np.asarray(cnd.integrate_log_conditional_y(p)(ys) if d["callable"] else cnd.integrate_log_conditional_y(p, y=ys), dtype=float)
+    if d["callable"]:
+        fn = cnd.integrate_log_conditional_y(p)
+        _other_calls(cnd, p, ys, {})         # the callable is held while the same conditional serves other requests
+        val = np.asarray(fn(ys), dtype=float)
+    else:
+        val = np.asarray(cnd.integrate_log_conditional_y(p, y=ys), dtype=float)
     ob.add("E_p(x)[ln p(y|x)]", val)
     ex = []
     for k in range(max(R, N)):
